@@ -172,9 +172,14 @@ theorem tensionRows_eq_internal (m : Mesh) (earr : List (List Id)) (hn : earr.No
 /-! ### `BigEdge.own_cells` (clause "an internal interface's own_cells are exactly the two cells on its sides")
 
     The code reads the cells off one vertex: the middle vertex `e[(len − 1) / 2]` for interfaces with three or more
-    vertices, the intersection of the two ends' cell lists for two-point interfaces.  That the middle vertex — an
-    interior point of the interface, not a junction — lies in at most two cells is the planarity fact; it is the one
-    explicit hypothesis `hmid` below (decidable on every concrete mesh, and checked per run by the oracle). -/
+    vertices.  That the middle vertex — an interior point of the interface, not a junction — lies in at most two cells
+    is the planarity fact; it is the one explicit hypothesis `hmid` below (decidable on every concrete mesh, and checked
+    per run by the oracle).
+    For a two-point interface `[a, b]` `BigEdge.__post_init__` takes the cells common to both ends and
+    `Frame.__post_init__` (repair of finding D30) keeps those in whose vertex cycle `a` and `b` are cyclic neighbours
+    (`cyclicNeighbours`, the model of `are_neighbours`; `Mesh.neighboursInCell m a b c` looks the cell `c` up first).
+    Vocabulary (Proofs/C08.lean): `Mesh.edgeCells m a b` — the keys of the cells, in dictionary order, in whose cycle
+    `(a, b)` or `(b, a)` is a cyclic consecutive pair (`cyclicPairs`): the cells along the mesh edge `{a, b}`. -/
 
 /-- the vertex the code looks at is an interior point of the interface: neither its first nor its last vertex -/
 theorem middle_index_interior (n : Nat) (h : 3 ≤ n) : 0 < (n - 1) / 2 ∧ (n - 1) / 2 < n - 1 := by omega
@@ -206,10 +211,52 @@ theorem ownCells_two_of_internal_interior_point (m : Mesh) (earr : List (List Id
   rw [e] at h
   exact ownCells_two_of_interior_point m earr[i] hlen h hmid
 
-/-- C08, own_cells clause, two-point interfaces, as what the code computes: the cells common to both end vertices
-    (in the order of the first end's list).  Nothing forces this list to have two elements, see the witness below. -/
+/-- C08, own_cells clause, two-point interfaces, as what the code computes (after the repair of D30): the cells common
+    to both end vertices (in the order of the first end's list) in whose vertex cycle the two ends are cyclic neighbours -/
 theorem ownCells_two_point (m : Mesh) (a b : Id) :
-    m.bigEdgeOwnCells [a, b] = listInter (m.ownCells a) (m.ownCells b) := rfl
+    m.bigEdgeOwnCells [a, b] = (listInter (m.ownCells a) (m.ownCells b)).filter (m.neighboursInCell a b) := rfl
+
+/-- the same, element-wise: `c` is kept iff both ends list it, it is a key of the cell dictionary and `are_neighbours`
+    holds on its cycle -/
+theorem ownCells_two_point_mem (m : Mesh) (a b c : Id) :
+    c ∈ m.bigEdgeOwnCells [a, b] ↔
+      c ∈ m.ownCells a ∧ c ∈ m.ownCells b ∧ ∃ cl, m.cell? c = some cl ∧ cyclicNeighbours cl.verts a b = true := by
+  rw [ownCells_two_point]
+  simp only [List.mem_filter, listInter, List.contains_eq_mem, decide_eq_true_eq, Mesh.neighboursInCell, and_assoc]
+  constructor
+  · rintro ⟨h1, h2, h3⟩
+    refine ⟨h1, h2, ?_⟩
+    split at h3
+    · rename_i cl hcl; exact ⟨cl, hcl, h3⟩
+    · simp at h3
+  · rintro ⟨h1, h2, cl, hcl, h3⟩
+    refine ⟨h1, h2, ?_⟩
+    rw [hcl]; exact h3
+
+/-- what `are_neighbours` tests: on a cycle without repeated vertex, `a` and `b` are cyclic neighbours iff `(a, b)` or
+    `(b, a)` is a cyclic consecutive pair (closing pair included) of the cycle.  Without the hypothesis only `→` holds
+    (`cyclicNeighbours_imp`): `ids.index(a)` looks at the first occurrence of `a` only. -/
+theorem cyclicNeighbours_spec (ids : List Id) (hn : ids.Nodup) (a b : Id) :
+    cyclicNeighbours ids a b = true ↔ ((a, b) ∈ cyclicPairs ids ∨ (b, a) ∈ cyclicPairs ids) :=
+  cyclicNeighbours_iff ids hn a b
+
+/-- the repair only removes cells: `own_cells` of a two-point interface is a sublist of the cells common to both ends -/
+theorem ownCells_two_point_sub (m : Mesh) (a b : Id) :
+    (m.bigEdgeOwnCells [a, b]).Sublist (listInter (m.ownCells a) (m.ownCells b)) := by
+  rw [ownCells_two_point]; exact List.filter_sublist
+
+/-- in a consistent mesh `own_cells` of a two-point interface lists exactly the cells along its mesh edge, each once -/
+theorem ownCells_two_point_perm (m : Mesh) (h : m.Consistent = true) (a b : Id) :
+    (m.bigEdgeOwnCells [a, b]).Perm (m.edgeCells a b) :=
+  m.bigEdgeOwnCells_pair_perm h a b
+
+/-- C08, own_cells clause, two-point interfaces: in a consistent mesh, if the mesh edge `{a, b}` lies in the cycles of
+    exactly two cells (`hedge`, decidable on every concrete mesh: planarity plus "not on the border") then `own_cells`
+    has exactly two elements — also when `a` and `b` have a third cell in common (a cell with two neighbours, see
+    `ownCells_lens_witness`) -/
+theorem ownCells_two_point_two (m : Mesh) (h : m.Consistent = true) (a b : Id)
+    (hedge : (m.edgeCells a b).length = 2) : (m.bigEdgeOwnCells [a, b]).length = 2 := by
+  rw [(ownCells_two_point_perm m h a b).length_eq, hedge]
 
 /-- two cells (1 above, 2 below) separated by the bent interface `1 – 2 – 3`, closed on the left by cell 3 and on the
     right by cell 4; vertices 1 and 3 are junctions of three cells, vertex 2 is the interior point of the interface -/
@@ -238,17 +285,58 @@ def holeLattice : Mesh :=
     [(0, 0, 1), (1, 1, 2), (2, 2, 3), (4, 4, 5), (5, 5, 6), (6, 6, 7), (8, 8, 9), (9, 9, 10), (10, 10, 11), (12, 12, 13), (13, 13, 14), (14, 14, 15), (100, 0, 4), (101, 1, 5), (102, 2, 6), (103, 3, 7), (104, 4, 8), (105, 5, 9), (106, 6, 10), (107, 7, 11), (108, 8, 12), (109, 9, 13), (110, 10, 14), (111, 11, 15)]
     [(0, [0, 1, 5, 4]), (1, [1, 2, 6, 5]), (2, [2, 3, 7, 6]), (4, [4, 5, 9, 8]), (6, [6, 7, 11, 10]), (8, [8, 9, 13, 12]), (9, [9, 10, 14, 13]), (10, [10, 11, 15, 14])]
 
-/-- known finding D27, machine-checked: in the consistent mesh `holeLattice` the two-point interface `6 – 5` on the
-    rim of the hole joins two junctions of three cells, is classified internal by all three copies of the predicate,
-    and its `own_cells` is the single cell 1 — not two cells -/
+/-- known finding D27, machine-checked (unchanged by the repair of D30, which only removes cells): in the consistent
+    mesh `holeLattice` the two-point interface `6 – 5` on the rim of the hole joins two junctions of three cells, is
+    classified internal by all three copies of the predicate, the only cell common to its ends is cell 1, whose cycle
+    `[1, 2, 6, 5]` has `6, 5` as neighbours, so its `own_cells` is the single cell 1 — not two cells; the mesh edge
+    `{6, 5}` lies in one cell only (the hypothesis `hedge` of `ownCells_two_point_two` fails) -/
 theorem ownCells_two_point_three_cells_witness :
     holeLattice.Consistent = true ∧
     holeLattice.bigEdgesList[5]? = some [6, 5] ∧
     5 ∈ holeLattice.internalIdx holeLattice.bigEdgesList ∧
     holeLattice.bigEdgeExternal [6, 5] = false ∧
     (holeLattice.ownCells 6).length = 3 ∧ (holeLattice.ownCells 5).length = 3 ∧
+    listInter (holeLattice.ownCells 6) (holeLattice.ownCells 5) = [1] ∧
+    holeLattice.edgeCells 6 5 = [1] ∧
     holeLattice.bigEdgeOwnCells [6, 5] = [1] ∧
     (holeLattice.bigEdgeOwnCells [6, 5]).length ≠ 2 := by decide +kernel
+
+/-- a lens (the mesh `lensMesh` of Props/C02matrix.lean): junctions 0 and 1 joined by the two-point interface `[1, 0]`
+    and by the three-point interface `[0, 2, 1]`; cell 0 `[0, 2, 1]` between them — a cell with exactly two neighbours —,
+    cell 1 above (along the arc), cell 2 below (along the chord) -/
+def lensTissue : Mesh := Mesh.ofLists
+  [(0,0,0),(1,4,0),(2,2,1),(3,-3,0),(4,7,0),(5,2,5),(6,2,-5)]
+  [(0,0,2),(1,2,1),(2,0,1),(3,3,0),(4,1,4),(5,4,5),(6,5,3),(7,3,6),(8,6,4)]
+  [(0,[0,2,1]),(1,[3,0,2,1,4,5]),(2,[3,6,4,1,0])]
+
+/-- finding D30 and its repair, machine-checked: in the consistent lens mesh the chord `[1, 0]` (interface 1, internal)
+    has both ends in all three cells — before the repair `own_cells` was that list of three cells and the pressure
+    matrix refused the tissue —; `0` and `1` are neighbours in the cycles of the lens cell 0 and of the lower cell 2 but
+    not in the upper cell 1 (`[3, 0, 2, 1, 4, 5]`), so `own_cells` is now `[0, 2]`, the two cells along the mesh edge;
+    the arc `[0, 2, 1]` (interface 0) keeps the cells `[0, 1]` of its middle vertex -/
+theorem ownCells_lens_witness :
+    lensTissue.Consistent = true ∧
+    lensTissue.bigEdgesList = [[0, 2, 1], [1, 0], [3, 0], [1, 4], [4, 5, 3], [3, 6, 4]] ∧
+    lensTissue.internalIdx lensTissue.bigEdgesList = [0, 1, 2, 3] ∧
+    listInter (lensTissue.ownCells 1) (lensTissue.ownCells 0) = [0, 1, 2] ∧
+    lensTissue.neighboursInCell 1 0 0 = true ∧ lensTissue.neighboursInCell 1 0 1 = false ∧
+    lensTissue.neighboursInCell 1 0 2 = true ∧
+    lensTissue.edgeCells 1 0 = [0, 2] ∧
+    lensTissue.bigEdgeOwnCells [1, 0] = [0, 2] ∧ (lensTissue.bigEdgeOwnCells [1, 0]).length = 2 ∧
+    lensTissue.bigEdgeOwnCells [0, 2, 1] = [0, 1] := by decide +kernel
+
+/-- the hypotheses of `ownCells_two_point_perm` / `ownCells_two_point_two` are satisfiable (and the theorem applies to
+    the chord of the lens) -/
+example : (lensTissue.bigEdgeOwnCells [1, 0]).length = 2 :=
+  ownCells_two_point_two lensTissue (by decide +kernel) 1 0 (by decide +kernel)
+
+/-- `hn` of `cyclicNeighbours_spec`; the closing pair counts: 0 is the neighbour of 1 in the lens cell `[0, 2, 1]` -/
+example : ([0, 2, 1] : List Id).Nodup ∧ cyclicNeighbours [0, 2, 1] 1 0 = true ∧ cyclicNeighbours [0, 2, 1] 0 1 = true ∧
+    cyclicNeighbours [3, 0, 2, 1, 4, 5] 1 0 = false := by decide +kernel
+
+/-- without `hn` the converse of `cyclicNeighbours_spec` fails: `index` finds the first occurrence only -/
+example : (7, 9) ∈ cyclicPairs ([7, 1, 7, 9] : List Id) ∧ cyclicNeighbours [7, 1, 7, 9] 7 9 = true ∧
+    (7, 3) ∈ cyclicPairs ([7, 1, 2, 7, 3, 4] : List Id) ∧ cyclicNeighbours [7, 1, 2, 7, 3, 4] 7 3 = false := by decide +kernel
 
 /-! non-vacuity: a hexagon-like cycle with junctions 10, 20, 30 -/
 example : cellPaths (fun v => decide (v ≥ 10)) [1, 2, 10, 3, 4, 20, 5, 30, 6]
